@@ -1,33 +1,39 @@
 (* C10 part 2: the event cascade of ONE run_to_completion - StartFlow events creating instances,
-   instances sliding to their next stop, FlowStarted/FlowFinished/FlowFailed/ColangError events
-   waking or failing instances that rest on a match for an internal event, finished or failed
-   ACTIVATED instances being restarted (`_finish_flow` / `_abort_flow`), the immediate-finish guard
-   of `_advance_head_front`, the label `start_new_flow_instance`, actionable heads being advanced
+   heads sliding to their next stop, ForkHead creating heads, MergeHeads / WaitForHeads removing
+   them, FlowStarted/FlowFinished/FlowFailed/ColangError events waking or failing heads that rest
+   on a match for an internal event, finished or failed ACTIVATED instances being restarted
+   (`_finish_flow` / `_abort_flow`), the immediate-finish guard of `_advance_head_front`, the label
+   `start_new_flow_instance`, actionable heads winning or LOSING the action conflict resolution
    when the queue is empty.  Definitions only; proofs in Cascade_proofs.v.
 
-   Abstractions (all over-approximations of what can happen, except where stated):
-   * which instance reacts how to an internal event is an arbitrary oracle `react`
-     (ignore / advance / fail = its match failed / kill = aborted by a dying parent, no restart);
-   * expression values: oracle `orc` as in Term.v;
-   * one head per instance: programs with ForkHead (groups, when) make the model stop with
-     CUnsup - they are covered by the termination harness only;
-   * every actionable head wins its action conflict (conflict resolution is C05's subject).
-   `guard` = the repaired restart logic of fixes/C10-activated-abort-restart.patch. *)
+   Abstractions (all over-approximations of what can happen):
+   * which head reacts how to an internal event is an arbitrary oracle `react`
+     (ignore / advance / fail = its match failed / kill = instance aborted by a dying parent);
+   * which actionable head wins or loses, which heads a merge removes: arbitrary oracles;
+   * expression values: oracle `orc` as in Term.v.
+   `guard` = the repaired restart logic (fixes/C10-activated-abort-restart.patch). *)
 From Coq Require Import List Arith Bool Lia.
 From NG Require Import V2.Term.
 Import ListNotations.
 
 Inductive cstatus := CStarting | CStarted | CDead.
 
+Record chead := {
+  h_pos : nat;                (* the element the head rests on *)
+  h_catch : list label;
+  h_inert : bool;             (* rests on a match for an EXTERNAL event that is not the current one or is
+                                 blocked on WaitForHeads: nothing in this cascade advances it *)
+  h_alts : list nat           (* where it is advanced from: behind its element; behind its catch label
+                                 when its match fails / its action loses *)
+}.
+
 Record cinst := {
   c_flow : flowid;
-  c_pos : nat;                (* the element the (single) head rests on *)
-  c_catch : list label;
+  c_heads : list chead;
   c_status : cstatus;
   c_act : bool;               (* activated > 0 *)
   c_restarted : bool;         (* new_instance_started *)
-  c_inert : bool              (* rests on a match for an EXTERNAL event that is not the current one, or is
-                                 the zombie of the immediate-finish guard: nothing in this cascade moves it *)
+  c_forked : bool             (* a ForkHead was executed since the instance started *)
 }.
 
 Inductive cev := CStart (f : flowid) (act : bool) | CNote.
@@ -35,6 +41,7 @@ Inductive cev := CStart (f : flowid) (act : bool) | CNote.
 Record cstate := { c_insts : list cinst; c_queue : list cev; c_tick : nat }.
 
 Inductive reaction := RIgnore | RAdvance | RFail | RKill.
+Inductive creaction := CWin | CLose.
 
 Inductive cres := COk (st : cstate) | COut | CUnsup.
 
@@ -42,8 +49,8 @@ Definition listening (c : cinst) : bool := match c_status c with CDead => false 
 Definition started (c : cinst) : bool := match c_status c with CStarted => true | _ => false end.
 
 Definition fresh (f : flowid) (act : bool) : cinst :=
-  {| c_flow := f; c_pos := 0; c_catch := []; c_status := CStarting; c_act := act;
-     c_restarted := false; c_inert := false |}.
+  {| c_flow := f; c_heads := [ {| h_pos := 0; h_catch := []; h_inert := false; h_alts := [1] |} ];
+     c_status := CStarting; c_act := act; c_restarted := false; c_forked := false |}.
 
 Definition is_stop (e : elem) : bool :=
   match e with EBlock _ | EWaitInt _ | EWaitHeads => true | _ => false end.
@@ -53,60 +60,89 @@ Record rout := { r_inst : cinst; r_right : list cev; r_left : list cev }.
 Definition note_if (b : bool) : list cev := if b then [CNote] else [].
 Definition start_if (b : bool) (f : flowid) (a : bool) : list cev := if b then [CStart f a] else [].
 
-(* the instance dies by its own failure: _abort_flow(restart_flow = guard -> was STARTED) *)
-Definition fail_inst (guard : bool) (c : cinst) (colang_error : bool) (restarted0 : bool) (pos : nat) (cs : list label) : rout :=
-  let restart := c_act c && negb restarted0 && (if guard then started c else true) in
-  {| r_inst := {| c_flow := c_flow c; c_pos := pos; c_catch := cs; c_status := CDead; c_act := c_act c;
-                  c_restarted := restarted0 || restart; c_inert := true |};
+Definition dead_inst (c : cinst) (rst : bool) : cinst :=
+  {| c_flow := c_flow c; c_heads := []; c_status := CDead; c_act := c_act c; c_restarted := rst;
+     c_forked := c_forked c |}.
+
+(* the instance dies by its own failure: _abort_flow(restart_flow = may_restart) *)
+Definition fail_inst (c : cinst) (may_restart : bool) (colang_error : bool) (restarted0 : bool) : rout :=
+  let restart := c_act c && negb restarted0 && may_restart in
+  {| r_inst := dead_inst c (restarted0 || restart);
      r_right := note_if colang_error ++ [CNote];
      r_left := start_if restart (c_flow c) (c_act c) |}.
 
+(* the repaired guard: a flow that fails by itself is restarted only if it had been STARTED *)
+Definition guard_ok (guard : bool) (c : cinst) : bool := if guard then started c else true.
+
 (* aborted from outside with deactivate_flow=True (parent finished / failed): no restart *)
 Definition kill_inst (c : cinst) : rout :=
-  {| r_inst := {| c_flow := c_flow c; c_pos := c_pos c; c_catch := c_catch c; c_status := CDead; c_act := c_act c;
-                  c_restarted := c_restarted c; c_inert := true |};
-     r_right := [CNote]; r_left := [] |}.
+  {| r_inst := dead_inst c (c_restarted c); r_right := [CNote]; r_left := [] |}.
 
-(* _advance_head_front for the head of instance c, which rests on a stop element: position += 1, slide *)
-Definition run_inst (guard : bool) (es : list elem) (o : nat -> outcome) (c : cinst) : option rout :=
-  let r := slide (length es + 1) es o (S (c_pos c)) (c_catch c) in
+Fixpoint remove_nth {A} (l : list A) (n : nat) : list A :=
+  match l, n with
+  | [], _ => []
+  | _ :: l', O => l'
+  | x :: l', S n' => x :: remove_nth l' n'
+  end.
+
+(* `all heads are waiting at a match (not an expansion-internal one) or a WaitForHeads` *)
+Definition head_waits (es : list elem) (h : chead) : bool :=
+  negb (Nat.eqb (h_pos h) 0) &&        (* position 0 = `match StartFlow`: the head that is just being started *)
+  match nth_error es (h_pos h) with
+  | Some (EBlock BMatch) | Some (EWaitInt true) | Some EWaitHeads => true
+  | _ => false
+  end.
+
+(* _advance_head_front for head `hd` (already taken out of `c`): slide from resume point q *)
+Definition run_head (guard : bool) (es : list elem) (o : nat -> outcome) (c : cinst) (hd : chead) (q : nat)
+  : option rout :=
+  let r := slide (length es + 1) es o q (h_catch hd) in
   let st := started c in
   let starts := map (fun fa => CStart (fst fa) (snd fa)) (s_starts r) in
   let lbl := s_newinst r && st in                       (* start_new_flow_instance passed while STARTED *)
   let left0 := start_if lbl (c_flow c) (c_act c) in
   let restarted0 := c_restarted c || lbl in
-  let mk pos status inert rst :=
-      {| c_flow := c_flow c; c_pos := pos; c_catch := s_catch r; c_status := status; c_act := c_act c;
-         c_restarted := rst; c_inert := inert |} in
+  let mk heads status forked :=
+      {| c_flow := c_flow c; c_heads := heads; c_status := status; c_act := c_act c;
+         c_restarted := restarted0; c_forked := forked |} in
   match s_stop r with
   | OutOfFuel => None
-  | Forked _ _ => None
   | Blocked p =>
       match nth_error es p with
-      | Some (EBlock BMatch) =>        (* a waiting statement: FlowStarted if not yet started; nothing more in this cascade *)
-          Some {| r_inst := mk p CStarted true restarted0; r_right := starts ++ note_if (negb st); r_left := left0 |}
-      | Some (EWaitInt true) =>        (* a user-level match on an internal event also counts for `all heads are waiting` *)
-          Some {| r_inst := mk p CStarted false restarted0; r_right := starts ++ note_if (negb st); r_left := left0 |}
-      | Some _ =>
-          Some {| r_inst := mk p (c_status c) false restarted0; r_right := starts; r_left := left0 |}
+      | Some e =>
+          let inert := match e with EBlock BMatch | EWaitHeads => true | _ => false end in
+          let hd' := {| h_pos := p; h_catch := s_catch r; h_inert := inert;
+                        h_alts := map fst (resumes es (s_catch r) p e) |} in
+          let heads' := hd' :: c_heads c in
+          let becomes := negb st && forallb (head_waits es) heads' in
+          Some {| r_inst := mk heads' (if becomes then CStarted else c_status c) (c_forked c);
+                  r_right := starts ++ note_if becomes; r_left := left0 |}
       | None => None
       end
+  | Forked p ts =>
+      (* the new heads are recorded as resting on the fork element; they are advanced at once (`step`) *)
+      let news := map (fun i => {| h_pos := p; h_catch := s_catch r; h_inert := false; h_alts := [S i] |}) ts in
+      Some {| r_inst := mk (news ++ c_heads c) (c_status c) true; r_right := starts; r_left := left0 |}
   | Ended =>
       if negb st && c_act c then
-        (* immediate-finish guard: FlowStarted, the flow is not finished, its head becomes inactive *)
-        Some {| r_inst := mk (length es) CStarted true restarted0; r_right := starts ++ [CNote]; r_left := left0 |}
+        (* immediate-finish guard: FlowStarted, the flow is not finished, this head becomes inactive *)
+        Some {| r_inst := mk (c_heads c) CStarted (c_forked c); r_right := starts ++ [CNote]; r_left := left0 |}
       else
         let restart := c_act c && negb restarted0 in
-        Some {| r_inst := mk (length es) CDead true (restarted0 || restart);
+        Some {| r_inst := dead_inst c (restarted0 || restart);
                 r_right := starts ++ note_if (negb st) ++ [CNote];
                 r_left := start_if restart (c_flow c) (c_act c) ++ left0 |}
   | Aborted =>
-      let f := fail_inst guard c false restarted0 (length es) (s_catch r) in
+      let f := fail_inst c (guard_ok guard c) false restarted0 in
       Some {| r_inst := r_inst f; r_right := starts ++ r_right f; r_left := r_left f ++ left0 |}
-  | Raised p =>
-      let f := fail_inst guard c true restarted0 p (s_catch r) in
+  | Raised _ =>
+      let f := fail_inst c (guard_ok guard c) true restarted0 in
       Some {| r_inst := r_inst f; r_right := starts ++ r_right f; r_left := r_left f ++ left0 |}
   end.
+
+Definition with_heads (c : cinst) (hs : list chead) : cinst :=
+  {| c_flow := c_flow c; c_heads := hs; c_status := c_status c; c_act := c_act c;
+     c_restarted := c_restarted c; c_forked := c_forked c |}.
 
 Fixpoint set_nth {A} (l : list A) (n : nat) (a : A) : list A :=
   match l, n with
@@ -120,92 +156,163 @@ Definition apply_rout (st : cstate) (i : nat) (ro : rout) : cstate :=
      c_queue := r_left ro ++ c_queue st ++ r_right ro;
      c_tick := S (c_tick st) |}.
 
-Definition at_stop (prog : program) (c : cinst) : bool :=
-  match nth_error prog (c_flow c) with
-  | Some es => match nth_error es (c_pos c) with Some e => is_stop e | None => false end
-  | None => false
-  end.
+Definition movable (c : cinst) (h : chead) : bool := listening c && negb (h_inert h).
 
-Definition movable (prog : program) (c : cinst) : bool := listening c && negb (c_inert c) && at_stop prog c.
-
-Definition react_inst (guard : bool) (prog : program) (orc : nat -> nat -> outcome) (rc : reaction)
-           (st : cstate) (i : nat) : cres :=
+(* a reaction of head j of instance i;  `keep` = which OTHER heads of the instance survive when
+   this head is advanced from a MergeHeads (the merge removes the heads of the fork) *)
+Definition react_head (guard : bool) (prog : program) (orc : nat -> nat -> outcome) (keep : nat -> bool)
+           (rc : reaction) (st : cstate) (i j : nat) : cres :=
   match nth_error (c_insts st) i with
   | None => COk st
   | Some c =>
     match rc with
     | RIgnore => COk st
     | RKill => if listening c then COk (apply_rout st i (kill_inst c)) else COk st
-    | RFail =>
-        if movable prog c then COk (apply_rout st i (fail_inst guard c false (c_restarted c) (c_pos c) (c_catch c)))
-        else COk st
-    | RAdvance =>
-        if movable prog c then
-          match nth_error prog (c_flow c) with
-          | Some es => match run_inst guard es (orc (c_tick st)) c with
-                       | Some ro => COk (apply_rout st i ro)
-                       | None => CUnsup
-                       end
-          | None => COk st
-          end
-        else COk st
+    | _ =>
+      match nth_error (c_heads c) j, nth_error prog (c_flow c) with
+      | Some hd, Some es =>
+          if movable c hd then
+            let others := remove_nth (c_heads c) j in
+            let others' := match nth_error es (h_pos hd) with
+                           | Some (EBlock BMerge) => map snd (filter (fun kh => keep (fst kh)) (combine (seq 0 (length others)) others))
+                           | _ => others
+                           end in
+            let alt := match rc with
+                       | RAdvance => nth_error (h_alts hd) 0
+                       | _ => nth_error (h_alts hd) 1           (* RFail: the catch label, if any *)
+                       end in
+            match alt with
+            | Some q =>
+                match run_head guard es (orc (c_tick st)) (with_heads c others') hd q with
+                | Some ro => COk (apply_rout st i ro)
+                | None => CUnsup
+                end
+            | None =>
+                match rc with
+                | RFail => COk (apply_rout st i (fail_inst c (guard_ok guard c) false (c_restarted c)))
+                | _ => COk (apply_rout st i {| r_inst := with_heads c others; r_right := []; r_left := [] |})
+                end
+            end
+          else COk st
+      | _, _ => COk st
+      end
     end
   end.
 
-Fixpoint react_all (guard : bool) (prog : program) (orc : nat -> nat -> outcome) (react : nat -> reaction)
-         (idx : list nat) (st : cstate) : cres :=
+(* the outer loop of run_to_completion (queue empty): an actionable head wins or loses the
+   conflict resolution - the loser is moved to its catch label, or its flow is aborted with the
+   default restart (`_abort_flow(state, flow_state, head.matching_scores)`); a merging head merges
+   (removing heads of its fork) or is itself removed by the merge of another head *)
+Definition outer_head (guard : bool) (prog : program) (orc : nat -> nat -> outcome) (keep : nat -> bool)
+           (cr : creaction) (st : cstate) (i j : nat) : cres :=
+  match cr with
+  | CWin => react_head guard prog orc keep RAdvance st i j
+  | CLose =>
+    match nth_error (c_insts st) i with
+    | None => COk st
+    | Some c =>
+      match nth_error (c_heads c) j, nth_error prog (c_flow c) with
+      | Some hd, Some es =>
+          match nth_error es (h_pos hd) with
+          | Some (EBlock BAction) =>
+              match nth_error (h_alts hd) 1 with
+              | Some q =>
+                  match run_head guard es (orc (c_tick st)) (with_heads c (remove_nth (c_heads c) j)) hd q with
+                  | Some ro => COk (apply_rout st i ro)
+                  | None => CUnsup
+                  end
+              | None => COk (apply_rout st i (fail_inst c true false (c_restarted c)))
+              end
+          | _ =>   (* a merging head whose fork is merged by another head *)
+              COk (apply_rout st i {| r_inst := with_heads c (remove_nth (c_heads c) j); r_right := []; r_left := [] |})
+          end
+      | _, _ => COk st
+      end
+    end
+  end.
+
+(* all (instance, head) index pairs of a state *)
+Definition all_heads (st : cstate) : list (nat * nat) :=
+  flat_map (fun ic => map (fun j => (fst ic, j)) (seq 0 (length (c_heads (snd ic)))))
+           (combine (seq 0 (length (c_insts st))) (c_insts st)).
+
+Fixpoint react_all (guard : bool) (prog : program) (orc : nat -> nat -> outcome) (keep : nat -> nat -> bool)
+         (react : nat -> nat -> reaction) (idx : list (nat * nat)) (st : cstate) : cres :=
   match idx with
   | [] => COk st
-  | i :: idx' =>
-      match react_inst guard prog orc (react i) st i with
-      | COk st' => react_all guard prog orc react idx' st'
+  | (i, j) :: idx' =>
+      match react_head guard prog orc (keep (c_tick st)) (react i j) st i j with
+      | COk st' => react_all guard prog orc keep react idx' st'
       | other => other
       end
   end.
 
-(* first instance that rests on an action and can be advanced (it is actionable and wins) *)
-Fixpoint find_actionable (prog : program) (l : list cinst) (i : nat) : option nat :=
+(* first movable head whose element satisfies `p` *)
+Fixpoint find_in_heads (p : elem -> bool) (es : list elem) (c : cinst) (hs : list chead) (j : nat) : option nat :=
+  match hs with
+  | [] => None
+  | h :: hs' =>
+      if movable c h && match nth_error es (h_pos h) with Some e => p e | None => false end
+      then Some j else find_in_heads p es c hs' (S j)
+  end.
+
+Fixpoint find_head (p : elem -> bool) (prog : program) (l : list cinst) (i : nat) : option (nat * nat) :=
   match l with
   | [] => None
   | c :: l' =>
-      if listening c && negb (c_inert c) &&
-         match nth_error prog (c_flow c) with
-         | Some es => match nth_error es (c_pos c) with Some (EBlock BAction) => true | _ => false end
-         | None => false
-         end
-      then Some i else find_actionable prog l' (S i)
-  end.
-
-Definition step (guard : bool) (prog : program) (orc : nat -> nat -> outcome) (react : nat -> nat -> reaction)
-           (st : cstate) : option cres :=        (* None = quiescent *)
-  match c_queue st with
-  | [] =>
-      match find_actionable prog (c_insts st) 0 with
-      | None => None
-      | Some i => Some (react_inst guard prog orc RAdvance st i)
-      end
-  | CNote :: q =>
-      let st1 := {| c_insts := c_insts st; c_queue := q; c_tick := S (c_tick st) |} in
-      Some (react_all guard prog orc (react (c_tick st)) (seq 0 (length (c_insts st))) st1)
-  | CStart f a :: q =>
-      match nth_error prog f with
-      | None => Some (COk {| c_insts := c_insts st; c_queue := q; c_tick := S (c_tick st) |})
-      | Some _ =>
-          let st1 := {| c_insts := c_insts st ++ [fresh f a]; c_queue := q; c_tick := S (c_tick st) |} in
-          Some (react_inst guard prog orc RAdvance st1 (length (c_insts st)))
+      match (match nth_error prog (c_flow c) with
+             | Some es => find_in_heads p es c (c_heads c) 0
+             | None => None
+             end) with
+      | Some j => Some (i, j)
+      | None => find_head p prog l' (S i)
       end
   end.
 
-(* fuel = number of processed internal events + advances of actionable heads *)
-Fixpoint cascade (guard : bool) (prog : program) (orc : nat -> nat -> outcome) (react : nat -> nat -> reaction)
-         (fuel : nat) (st : cstate) : cres :=
-  match step guard prog orc react st with
+Definition is_pending (e : elem) : bool := negb (is_stop e).        (* a head just created by a fork *)
+Definition is_outer (e : elem) : bool := match e with EBlock BAction | EBlock BMerge => true | _ => false end.
+
+Record oracles := {
+  o_orc : nat -> nat -> outcome;
+  o_react : nat -> nat -> nat -> reaction;      (* tick, instance, head *)
+  o_keep : nat -> nat -> bool;                  (* tick, head index among the others *)
+  o_conflict : nat -> creaction                 (* tick *)
+}.
+
+Definition step (guard : bool) (prog : program) (o : oracles) (st : cstate) : option cres :=   (* None = quiescent *)
+  match find_head is_pending prog (c_insts st) 0 with
+  | Some (i, j) =>        (* `_advance_head_front(new_heads)`: forked heads are advanced at once *)
+      Some (react_head guard prog (o_orc o) (o_keep o (c_tick st)) RAdvance st i j)
+  | None =>
+    match c_queue st with
+    | [] =>
+        match find_head is_outer prog (c_insts st) 0 with
+        | None => None
+        | Some (i, j) =>
+            Some (outer_head guard prog (o_orc o) (o_keep o (c_tick st)) (o_conflict o (c_tick st)) st i j)
+        end
+    | CNote :: q =>
+        let st1 := {| c_insts := c_insts st; c_queue := q; c_tick := S (c_tick st) |} in
+        Some (react_all guard prog (o_orc o) (o_keep o) (o_react o (c_tick st)) (all_heads st) st1)
+    | CStart f a :: q =>
+        match nth_error prog f with
+        | None => Some (COk {| c_insts := c_insts st; c_queue := q; c_tick := S (c_tick st) |})
+        | Some _ =>
+            let st1 := {| c_insts := c_insts st ++ [fresh f a]; c_queue := q; c_tick := S (c_tick st) |} in
+            Some (react_head guard prog (o_orc o) (o_keep o (c_tick st)) RAdvance st1 (length (c_insts st)) 0)
+        end
+    end
+  end.
+
+(* fuel = number of processed internal events + advances of forked / actionable / merging heads *)
+Fixpoint cascade (guard : bool) (prog : program) (o : oracles) (fuel : nat) (st : cstate) : cres :=
+  match step guard prog o st with
   | None => COk st
   | Some r =>
       match fuel with
       | O => COut
       | S f => match r with
-               | COk st' => cascade guard prog orc react f st'
+               | COk st' => cascade guard prog o f st'
                | other => other
                end
       end
@@ -213,13 +320,15 @@ Fixpoint cascade (guard : bool) (prog : program) (orc : nat -> nat -> outcome) (
 
 (* ------------------------------------------------------------------------------------------ *)
 (* The premise for cascades.  Per flow: static stacks `stk`, a ranking for the cascade graph
-   (matches on internal events, actions, merges are crossed) and weights `w` that pay for every
-   event a run from a position can still cause:
-       w[p] >= 1 + cost of the StartFlow the element at p sends + w[q]   for every cascade step p -> q *)
+   (matches on internal events, actions, merges, forks are crossed) and weights `w` that pay for
+   every event a run from a position can still cause:
+       w[p] >= 1 + cost of the StartFlow the element at p sends + w[q]   for every cascade step p -> q
+       w[p] >= 1 + sum over the forked heads (1 + w[behind their label])   at a ForkHead *)
 
 Definition wat (w : list nat) (len p : nat) : nat := if Nat.ltb p len then nth p w 0 else 0.
 
-Record fcert := { f_rank : list nat; f_stk : list (option (list label)); f_w : list nat }.
+Record fcert := { f_rank : list nat; f_stk : list (option (list label)); f_w : list nat;
+                  f_clean : list bool; f_noend : list bool }.
 
 Definition newpot (prog : program) (certs : list fcert) (g : flowid) : nat :=
   match nth_error prog g, nth_error certs g with
@@ -237,24 +346,47 @@ Definition ecost (prog : program) (certs : list fcert) (self : flowid) (e : elem
   | _ => 0
   end.
 
+Definition fork_cost (es : list elem) (w : list nat) (ls : list label) : nat :=
+  list_sum (map (fun l => match label_pos es l with Some i => 1 + wat w (length es) (S i) | None => 0 end) ls).
+
 Definition check_w (prog : program) (certs : list fcert) (f : flowid) (es : list elem) (ct : fcert) : bool :=
   forallb (fun p =>
              match nth_error es p with
              | Some e =>
                  forallb (fun qs => Nat.leb (1 + ecost prog certs f e + wat (f_w ct) (length es) (fst qs))
                                             (wat (f_w ct) (length es) p))
-                         (succ_cfg true es (f_stk ct) p)
+                         (succ_cfg true es (f_stk ct) p) &&
+                 match e with
+                 | EFork ls => Nat.leb (1 + fork_cost es (f_w ct) ls) (wat (f_w ct) (length es) p)
+                 | _ => true
+                 end
              | None => true
              end) (seq 0 (length es)).
 
-(* an activated instance that has not yet been STARTED must not become STARTED on a match for an
-   internal event (e.g. `await child`): otherwise it could finish and be restarted in the same
-   cascade forever.  clean[p]: no EWaitInt true is reachable from p in the cascade graph. *)
-Definition check_clean (es : list elem) (stk : list (option (list label))) (clean : list bool) : bool :=
+(* Side conditions for ACTIVATED flows, on the region an instance can run through before it is
+   STARTED (clean[p]: p belongs to it):
+   - no user-level match on an internal event (e.g. `await child`): the instance would become
+     STARTED without having waited for an external event, could finish in the same cascade and be
+     restarted forever;
+   - no action: a not-yet-started instance that loses the action conflict is restarted at once;
+   - behind a fork the end of the flow is not reachable without a match on an external event
+     (noend): the immediate-finish guard would leave the other heads running. *)
+Definition check_clean (es : list elem) (ct : fcert) : bool :=
   forallb (fun p =>
-             negb (nth p clean false) ||
-             (match nth_error es p with Some (EWaitInt true) => Nat.eqb p 0 | _ => true end &&
-              forallb (fun qs => Nat.leb (length es) (fst qs) || nth (fst qs) clean false) (succ_cfg true es stk p)))
+             (negb (nth p (f_clean ct) false) ||
+              (match nth_error es p with
+               | Some (EWaitInt true) => Nat.eqb p 0
+               | Some (EBlock BAction) => false
+               | Some (EFork _) => forallb (fun qs => Nat.ltb (fst qs) (length es) && nth (fst qs) (f_noend ct) false)
+                                           (succ_cfg true es (f_stk ct) p)
+               | _ => true
+               end &&
+               forallb (fun qs => Nat.leb (length es) (fst qs) || nth (fst qs) (f_clean ct) false)
+                       (succ_cfg true es (f_stk ct) p))) &&
+             (negb (nth p (f_noend ct) false) ||
+              (match nth_error es p with Some EReturn => false | _ => true end &&
+               forallb (fun qs => Nat.ltb (fst qs) (length es) && nth (fst qs) (f_noend ct) false)
+                       (succ_cfg true es (f_stk ct) p))))
           (seq 0 (length es)).
 
 Definition activatable (prog : program) (g : flowid) : bool :=
@@ -263,84 +395,117 @@ Definition activatable (prog : program) (g : flowid) : bool :=
 Fixpoint forallb_i {A} (f : nat -> A -> bool) (l : list A) (i : nat) : bool :=
   match l with [] => true | a :: l' => f i a && forallb_i f l' (S i) end.
 
-Definition no_fork (es : list elem) : bool :=
-  forallb (fun e => match e with EFork _ => false | _ => true end) es.
-
-Definition cascade_cert_ok (prog : program) (certs : list fcert) (cleans : list (list bool)) : bool :=
-  Nat.eqb (length certs) (length prog) && Nat.eqb (length cleans) (length prog) &&
+Definition cascade_cert_ok (prog : program) (certs : list fcert) : bool :=
+  Nat.eqb (length certs) (length prog) &&
   forallb_i (fun f es =>
-               match nth_error certs f, nth_error cleans f with
-               | Some ct, Some cl =>
-                   no_fork es &&
+               match nth_error certs f with
+               | Some ct =>
                    match es with EWaitInt true :: _ => true | _ => false end &&    (* match StartFlow(flow_id = f) *)
                    match stk_at (f_stk ct) 0 with Some [] => true | _ => false end &&
                    check_cert true es (f_rank ct) (f_stk ct) &&
                    check_w prog certs f es ct &&
-                   check_clean es (f_stk ct) cl &&
-                   (negb (activatable prog f) || nth 0 cl false)
-               | _, _ => false
+                   check_clean es ct &&
+                   (negb (activatable prog f) || nth 1 (f_clean ct) false || Nat.leb (length es) 1)
+               | None => false
                end) prog 0.
 
 (* ---- computing the certificates (nothing below is trusted: only cascade_cert_ok is) *)
-Definition w_pass (prog : program) (certs : list fcert) (f : flowid) (es : list elem) (ct : fcert) : list nat :=
-  (* positions in decreasing rank order would be ideal; we simply iterate reverse passes *)
+Definition with_w (ct : fcert) (w : list nat) : fcert :=
+  {| f_rank := f_rank ct; f_stk := f_stk ct; f_w := w; f_clean := f_clean ct; f_noend := f_noend ct |}.
+
+(* successor positions of every position in the cascade graph, computed once per flow *)
+Definition succ_table (es : list elem) (stk : list (option (list label))) : list (list nat) :=
+  map (fun p => map fst (succ_cfg true es stk p)) (seq 0 (length es)).
+
+Definition w_cap : nat := 200 * 100.
+
+Definition w_pass (prog : program) (certs : list fcert) (f : flowid) (es : list elem) (tbl : list (list nat)) (w0 : list nat)
+  : list nat :=
   fold_left (fun w p =>
                match nth_error es p with
                | Some e =>
-                   let need := fold_left (fun m qs => Nat.max m (1 + ecost prog certs f e + wat w (length es) (fst qs)))
-                                         (succ_cfg true es (f_stk ct) p) 0 in
-                   set_nth w p (Nat.max need (nth p w 0))
+                   let c := 1 + ecost prog certs f e in
+                   let need := fold_left (fun m q => Nat.max m (c + wat w (length es) q)) (nth p tbl []) 0 in
+                   let need := match e with EFork ls => Nat.max need (1 + fork_cost es w ls) | _ => need end in
+                   (* weights are unary numbers: give up (the check will reject) instead of exploding *)
+                   if Nat.leb need (nth p w 0) || Nat.ltb w_cap need then w else set_nth w p need
                | None => w
-               end) (rev (seq 0 (length es))) (f_w ct).
+               end) (rev (seq 0 (length es))) w0.
 
-Definition with_w (ct : fcert) (w : list nat) : fcert := {| f_rank := f_rank ct; f_stk := f_stk ct; f_w := w |}.
-
-Fixpoint w_iter (fuel : nat) (prog : program) (certs : list fcert) : list fcert :=
+Fixpoint w_iter (fuel : nat) (prog : program) (tbls : list (list (list nat))) (certs : list fcert) : list fcert :=
   match fuel with
   | O => certs
   | S n =>
-      let certs' := map (fun fc => with_w (snd (snd fc)) (w_pass prog certs (fst fc) (fst (snd fc)) (snd (snd fc))))
-                        (combine (seq 0 (length prog)) (combine prog certs)) in
-      w_iter n prog certs'
+      let certs' := map (fun x => let '(f, (es, (tbl, ct))) := x in
+                                  (* two sweeps inside a flow per round: backward jumps of loops *)
+                                  with_w ct (w_pass prog certs f es tbl (w_pass prog certs f es tbl (f_w ct))))
+                        (combine (seq 0 (length prog)) (combine prog (combine tbls certs))) in
+      w_iter n prog tbls certs'
   end.
 
-Definition clean_pass (es : list elem) (stk : list (option (list label))) (cl : list bool) : list bool :=
-  map (fun p => nth p cl false &&
-                match nth_error es p with Some (EWaitInt true) => Nat.eqb p 0 | _ => true end &&
-                forallb (fun qs => Nat.leb (length es) (fst qs) || nth (fst qs) cl false) (succ_cfg true es stk p))
-      (seq 0 (length es)).
+Definition count_true (l : list bool) : nat := length (filter (fun b => b) l).
 
-Fixpoint clean_iter (fuel : nat) (es : list elem) (stk : list (option (list label))) (cl : list bool) : list bool :=
-  match fuel with O => cl | S n => clean_iter n es stk (clean_pass es stk cl) end.
+Fixpoint iter_fix (fuel : nat) (f : list bool -> list bool) (a : list bool) : list bool :=
+  match fuel with
+  | O => a
+  | S n => let a' := f a in if Nat.eqb (count_true a') (count_true a) then a' else iter_fix n f a'
+  end.
 
-Definition compute_certs (prog : program) (passes : nat) : list fcert * list (list bool) :=
+(* greatest fixpoints of the clean / noend conditions: reverse Gauss-Seidel sweeps from all-true *)
+Definition noend_pass (es : list elem) (tbl : list (list nat)) (ne0 : list bool) : list bool :=
+  fold_left (fun ne p =>
+               if nth p ne false then
+                 if match nth_error es p with Some EReturn => false | _ => true end &&
+                    forallb (fun q => Nat.ltb q (length es) && nth q ne false) (nth p tbl [])
+                 then ne else set_nth ne p false
+               else ne) (rev (seq 0 (length es))) ne0.
+
+Definition clean_pass (es : list elem) (tbl : list (list nat)) (ne cl0 : list bool) : list bool :=
+  fold_left (fun cl p =>
+               if nth p cl false then
+                 if match nth_error es p with
+                    | Some (EWaitInt true) => Nat.eqb p 0
+                    | Some (EBlock BAction) => false
+                    | Some (EFork _) => forallb (fun q => Nat.ltb q (length es) && nth q ne false) (nth p tbl [])
+                    | _ => true
+                    end &&
+                    forallb (fun q => Nat.leb (length es) q || nth q cl false) (nth p tbl [])
+                 then cl else set_nth cl p false
+               else cl) (rev (seq 0 (length es))) cl0.
+
+Definition compute_certs (prog : program) (passes : nat) : list fcert :=
   let base := map (fun es => let stk := compute_stk es in
-                             {| f_rank := compute_rank true es stk; f_stk := stk; f_w := repeat 0 (length es) |}) prog in
-  let certs := w_iter passes prog base in
-  (certs, map (fun ec => clean_iter (length (fst ec)) (fst ec) (f_stk (snd ec)) (repeat true (length (fst ec))))
-              (combine prog certs)).
+                             let tbl := succ_table es stk in
+                             let ne := iter_fix (S (length es)) (noend_pass es tbl) (repeat true (length es)) in
+                             let cl := iter_fix (S (length es)) (clean_pass es tbl ne) (repeat true (length es)) in
+                             (tbl, {| f_rank := compute_rank true es stk; f_stk := stk; f_w := repeat 0 (length es);
+                                      f_clean := cl; f_noend := ne |})) prog in
+  w_iter passes prog (map fst base) (map snd base).
 
 Definition cascade_guardedb (prog : program) : bool :=
-  let '(certs, cleans) := compute_certs prog (S (length prog)) in cascade_cert_ok prog certs cleans.
+  cascade_cert_ok prog (compute_certs prog (S (length prog))).
 
 (* ---- the potential of a state and the bound *)
+Definition hpot (w : list nat) (len : nat) (h : chead) : nat :=
+  if h_inert h then 0 else 1 + list_max (map (wat w len) (h_alts h)).
+
 Definition ipot (prog : program) (certs : list fcert) (c : cinst) : nat :=
   if listening c then
     2 + (if started c then 0 else 1) +
-    (if c_inert c then 0
-     else match nth_error prog (c_flow c), nth_error certs (c_flow c) with
-          | Some es, Some ct =>
-              1 + wat (f_w ct) (length es) (S (c_pos c)) +
-              (if c_act c && negb (c_restarted c) && started c then 1 + newpot prog certs (c_flow c) else 0)
-          | _, _ => 0
-          end)
+    match nth_error prog (c_flow c), nth_error certs (c_flow c) with
+    | Some es, Some ct =>
+        list_sum (map (hpot (f_w ct) (length es)) (c_heads c)) +
+        (if c_act c && negb (c_restarted c) && started c && existsb (fun h => negb (h_inert h)) (c_heads c)
+         then 1 + newpot prog certs (c_flow c) else 0)
+    | _, _ => 0
+    end
   else 0.
 
 Definition phi (prog : program) (certs : list fcert) (st : cstate) : nat :=
   list_sum (map (ipot prog certs) (c_insts st)) + list_sum (map (ev_cost prog certs) (c_queue st)).
 
 (* a bound that depends only on the program (through its certificate) and on the number of live
-   instances and queued events *)
+   heads, live instances and queued events *)
 Definition flow_cost (prog : program) (certs : list fcert) (f : flowid) : nat :=
   match nth_error prog f, nth_error certs f with
   | Some es, Some ct => list_max (f_w ct) + newpot prog certs f + 5
@@ -349,54 +514,99 @@ Definition flow_cost (prog : program) (certs : list fcert) (f : flowid) : nat :=
 Definition max_flow_cost (prog : program) (certs : list fcert) : nat :=
   list_max (map (flow_cost prog certs) (seq 0 (length prog))) + 3.
 
-Definition rtc_bound (prog : program) (certs : list fcert) (live queued : nat) : nat :=
-  (live + queued) * max_flow_cost prog certs.
+Definition rtc_bound (prog : program) (certs : list fcert) (live_heads live queued : nat) : nat :=
+  (live_heads + live + queued) * max_flow_cost prog certs.
 
 (* ---- examples *)
+Definition all_true : nat -> nat -> outcome := fun _ _ => OTrue.
+Definition eager : oracles :=
+  {| o_orc := all_true; o_react := fun _ _ _ => RAdvance; o_keep := fun _ _ => false; o_conflict := fun _ => CWin |}.
+
+Definition mk_head (p : nat) : chead := {| h_pos := p; h_catch := []; h_inert := false; h_alts := [S p] |}.
+Definition mk_inst (f : flowid) (hs : list chead) (s : cstatus) (a : bool) : cinst :=
+  {| c_flow := f; c_heads := hs; c_status := s; c_act := a; c_restarted := false; c_forked := false |}.
+
 (* main: activate a; match X()      a: abort *)
 Definition f4_prog : program :=
   [ [EWaitInt true; EStep; EStart 1 true; EWaitInt false; EBlock BMatch];
     [EWaitInt true; EAbort] ].
 Definition f4_state : cstate :=
-  {| c_insts := [ {| c_flow := 0; c_pos := 0; c_catch := []; c_status := CStarting; c_act := false;
-                     c_restarted := false; c_inert := false |} ];
-     c_queue := [CNote]; c_tick := 0 |}.
-Definition all_true : nat -> nat -> outcome := fun _ _ => OTrue.
-Definition all_advance : nat -> nat -> reaction := fun _ _ => RAdvance.
+  {| c_insts := [ mk_inst 0 [mk_head 0] CStarting false ]; c_queue := [CNote]; c_tick := 0 |}.
 
 Example f4_guarded : cascade_guardedb f4_prog = true.
 Proof. vm_compute. reflexivity. Qed.
 
 Example f4_repaired_terminates :
-  match cascade true f4_prog all_true all_advance 20 f4_state with COk st => c_queue st = [] | _ => False end.
+  match cascade true f4_prog eager 20 f4_state with COk st => c_queue st = [] | _ => False end.
 Proof. vm_compute. reflexivity. Qed.
 
-Example f4_unchanged_busy :
-  cascade false f4_prog all_true all_advance 2000 f4_state = COut.
+Example f4_unchanged_busy : cascade false f4_prog eager 2000 f4_state = COut.
 Proof. vm_compute. reflexivity. Qed.
 
 (* main: activate a; match X()      a: send Out(); abort
-   the failing advance of `a` is its SECOND one (after the action), its status is STARTING *)
+   the failing advance of `a` is its SECOND one (after the action), its status is STARTING;
+   an activated flow with an action before its first match is outside the certificate class
+   (side condition 2), the model still shows the repaired / unrepaired behaviour *)
 Definition f5_prog : program :=
   [ [EWaitInt true; EStep; EStart 1 true; EWaitInt false; EBlock BMatch];
     [EWaitInt true; EBlock BAction; EAbort] ].
 Definition f5_state : cstate :=
-  {| c_insts := [ {| c_flow := 0; c_pos := 3; c_catch := []; c_status := CStarting; c_act := false;
-                     c_restarted := false; c_inert := false |} ];
-     c_queue := [CStart 1 true]; c_tick := 0 |}.
+  {| c_insts := [ mk_inst 0 [mk_head 3] CStarting false ]; c_queue := [CStart 1 true]; c_tick := 0 |}.
 
-Example f5_guarded : cascade_guardedb f5_prog = true.
-Proof. vm_compute. reflexivity. Qed.
-
-(* repaired guard (restart only if the flow HAD BEEN STARTED): one failure, no restart *)
 Example f5_repaired_terminates :
-  match cascade true f5_prog all_true all_advance 20 f5_state with
+  match cascade true f5_prog eager 20 f5_state with
   | COk st => c_queue st = [] /\ length (c_insts st) = 2
   | _ => False
   end.
 Proof. vm_compute. split; reflexivity. Qed.
 
-(* a guard that only looks at the first advance (or no guard) restarts it over and over *)
-Example f5_unguarded_busy :
-  cascade false f5_prog all_true all_advance 2000 f5_state = COut.
+Example f5_unguarded_busy : cascade false f5_prog eager 2000 f5_state = COut.
+Proof. vm_compute. reflexivity. Qed.
+
+(* an or-group: main: match A() or B(); step     (fork, two heads, merge) *)
+Definition f6_prog : program :=
+  [ [EWaitInt true; ECatch (Some 0); EFork [1; 2]; ELabel 1 false; EBlock BMatch; EJump 3 false;
+     ELabel 2 false; EBlock BMatch; EJump 3 false; ELabel 0 false; EWaitHeads; EBlock BMerge; ECatch None; EAbort;
+     ELabel 3 false; EBlock BMerge; ECatch None; EStep] ].
+Example f6_guarded : cascade_guardedb f6_prog = true.
+Proof. vm_compute. reflexivity. Qed.
+Example f6_forks :
+  match cascade true f6_prog eager 20 {| c_insts := []; c_queue := [CStart 0 false]; c_tick := 0 |} with
+  | COk st => map (fun c => (map h_pos (c_heads c), c_status c)) (c_insts st) = [([7; 4], CStarted)]
+  | _ => False
+  end.
+Proof. vm_compute. reflexivity. Qed.
+
+(* The implicit loop:  main: activate a; match X()     a: await b     b: $x = 1
+   `a` becomes STARTED on its match for FlowFinished(b) - an event produced inside the same
+   cascade - finishes, is restarted, ... : busy forever also under the repaired guard.  The
+   certificate rejects it (side condition: no user-level match on an internal event before the
+   first external match of an activated flow).  The same holds for the explicit loop
+   `while True: await b`: a loop whose only waits are satisfied inside the same processing step is
+   a loop without waiting statement. *)
+Definition f7_prog : program :=
+  [ [EWaitInt true; EStart 1 true; EWaitInt false; EBlock BMatch];
+    [EWaitInt true; EStep; EStart 2 false; EWaitInt false; EStep; EWaitInt true];
+    [EWaitInt true; EStep] ].
+Definition f7_explicit : program :=
+  [ [EWaitInt true; EStart 1 false; EWaitInt false; EBlock BMatch];
+    [EWaitInt true; ELabel 0 false; EStep; EStart 2 false; EWaitInt false; EStep; EWaitInt true; EJump 0 false];
+    [EWaitInt true; EStep] ].
+Definition f7_state : cstate :=
+  {| c_insts := []; c_queue := [CStart 0 false]; c_tick := 0 |}.
+
+Example f7_rejected : cascade_guardedb f7_prog = false /\ cascade_guardedb f7_explicit = false.
+Proof. vm_compute. split; reflexivity. Qed.
+
+Example f7_busy :
+  cascade true f7_prog eager 3000 f7_state = COut /\ cascade true f7_explicit eager 3000 f7_state = COut.
+Proof. vm_compute. split; reflexivity. Qed.
+
+(* with a child that waits for an external event both are accepted and quiescent at once *)
+Definition f7_waiting : program :=
+  [ [EWaitInt true; EStart 1 false; EWaitInt false; EBlock BMatch];
+    [EWaitInt true; ELabel 0 false; EStep; EStart 2 false; EWaitInt false; EStep; EWaitInt true; EJump 0 false];
+    [EWaitInt true; EBlock BMatch] ].
+Example f7_waiting_ok :
+  match cascade true f7_waiting eager 40 f7_state with COk st => c_queue st = [] | _ => False end.
 Proof. vm_compute. reflexivity. Qed.
